@@ -108,6 +108,7 @@ macro_rules! vcover {
 }
 pub(crate) use vcover;
 
+pub mod model;
 pub mod refcnt;
 #[cfg(not(kani))]
 pub mod replay;
